@@ -3,6 +3,7 @@ package netsim
 import (
 	"bytes"
 	"encoding/json"
+	"runtime"
 	"testing"
 	"time"
 
@@ -95,6 +96,8 @@ func (f *fakeEP) HandleControlPacket(id stack.TransportEndpointID, typ stack.Con
 
 type dmWorld struct {
 	*PeerWorld
+	addrOff bool // the second address of NIC 1 (dmLocal[2]) is currently removed
+	users   []*dmSock // ... but sockets that held a route from it when it was removed keep it alive until they are gone (reference-counted, documented)
 	prop  string
 	cfg   DemuxCfg
 	link2 *Link
@@ -105,6 +108,9 @@ type dmWorld struct {
 func (w *dmWorld) owned(nic int, dst tcpip.Address) bool {
 	for i, a := range dmLocal {
 		if i > 0 && a == dst && dmNICof[i] == nic {
+			if i == 2 && w.addrOff {
+				break // removed for now
+			}
 			return true
 		}
 	}
@@ -113,6 +119,17 @@ func (w *dmWorld) owned(nic int, dst tcpip.Address) bool {
 	}
 	if nic == 0 && w.cfg.Subnet && len(dst) == 4 && dst[0] == 10 && dst[1] == 0 && dst[2] == 0 {
 		return true
+	}
+	return false
+}
+
+// lingering: a removed address is still referenced by a socket that used it at removal time
+// (a closed TCP connection may still be winding down: it counts for the rest of the run).
+func (w *dmWorld) lingering() bool {
+	for _, sk := range w.users {
+		if !sk.closed || sk.tcp {
+			return true
+		}
 	}
 	return false
 }
@@ -243,7 +260,15 @@ func (w *dmWorld) openAt(kind int, laddr tcpip.Address, lport uint16, ri, mode, 
 		}
 		conflict := w.conflict(false, laddr, lport)
 		e := ep.Bind(tcpip.FullAddress{NIC: bnic, Addr: laddr, Port: lport}, nil)
-		w.bindResult(false, laddr, lport, conflict, e)
+		if w.addrOff && laddr == dmLocal[2] {
+			// binding to an address that has been removed: refused, unless it still lingers - not judged either way
+			w.Probes["bind_to_removed_address"]++
+			if e == nil && !w.lingering() {
+				w.demuxFail("bound-to-removed-address", "binding to % x succeeded although the address was removed and nothing uses it any more", []byte(laddr))
+			}
+		} else {
+			w.bindResult(false, laddr, lport, conflict, e)
+		}
 		if e != nil {
 			ep.Close()
 			return nil
@@ -280,6 +305,9 @@ func (w *dmWorld) openAt(kind int, laddr tcpip.Address, lport uint16, ri, mode, 
 				}
 			}
 		}
+		if w.addrOff && laddr == dmLocal[2] {
+			w.users = append(w.users, s) // bound while the address lingered: it may keep it alive in turn
+		}
 		w.socks = append(w.socks, s)
 		made = s
 	case 2: // TCP listener
@@ -290,7 +318,11 @@ func (w *dmWorld) openAt(kind int, laddr tcpip.Address, lport uint16, ri, mode, 
 		if e == nil {
 			e = ep.Listen(4)
 		}
-		w.bindResult(true, laddr, lport, conflict, e)
+		if w.addrOff && laddr == dmLocal[2] {
+			w.Probes["bind_to_removed_address"]++
+		} else {
+			w.bindResult(true, laddr, lport, conflict, e)
+		}
 		if e != nil {
 			ep.Close()
 			return nil
@@ -304,7 +336,7 @@ func (w *dmWorld) openAt(kind int, laddr tcpip.Address, lport uint16, ri, mode, 
 		}
 		ra, rp := dmRAddr[ri%3], dmRPort[ri%3]
 		l := w.winner(true, 0, dst, lport, ra, rp)
-		if l == nil || !l.listener {
+		if l == nil || !l.listener || !w.owned(0, dst) {
 			return nil
 		}
 		for _, s := range w.socks {
@@ -420,6 +452,10 @@ func (w *dmWorld) inject(isTCP bool, nic, di, pi, ri int) {
 	// a socket bound to the wildcard address and then connected: whether it still
 	// hears packets for its other local addresses is left open
 	ambiguous := false
+	if w.addrOff && w.lingering() && dst == dmLocal[2] {
+		ambiguous = true
+		w.Probes["packet_for_removed_but_referenced_address"]++
+	}
 	for _, s := range w.socks {
 		if !s.closed && s.loose && !isTCP && s.lport == dport && s.raddr == src && s.rport == sport && dst != s.laddr {
 			ambiguous = true
@@ -573,6 +609,79 @@ func (w *dmWorld) apply(s Step) {
 			w.Settle()
 			w.Take()
 		}
+	case "addr":
+		// remove or re-assign the second address of NIC 1 (not when the interface answers for
+		// unassigned addresses anyway: temporary endpoints then blur what 'assigned' means)
+		if w.cfg.Promisc || w.cfg.Subnet {
+			break
+		}
+		x := dmLocal[2]
+		if !w.addrOff {
+			// users of the address keep a counted reference: while any socket that was open at this
+			// moment used it, the address may linger (the stack documents this)
+			w.users = nil
+			for _, sk := range w.socks {
+				// connected UDP sockets and TCP connections hold a route, i.e. a reference to their local address
+				if sk.fake == nil && sk.laddr == x && sk.raddr != "" && (!sk.closed || sk.tcp) {
+					w.users = append(w.users, sk)
+				}
+			}
+			if e := w.S.S.RemoveAddress(1, x); e == nil {
+				w.addrOff = true
+				w.Probes["address_removed"]++
+			}
+		} else if e := w.S.S.AddAddress(1, ipv4.ProtocolNumber, x); e == nil {
+			w.addrOff, w.users = false, nil
+			w.Probes["address_added_again"]++
+		} else if !w.lingering() {
+			w.demuxFail("address-cannot-be-assigned-again", "AddAddress of % x, removed earlier and used by nothing since, failed: %s", []byte(x), e.String())
+		}
+		w.Settle()
+		w.Take()
+	case "raceclose":
+		// a datagram for a UDP socket is handed to the stack and, without waiting for it to be
+		// queued, another goroutine closes that socket: once both are done, the closed socket is empty
+		if s.A < 0 || s.A >= len(w.socks) {
+			break
+		}
+		sk := w.socks[s.A]
+		if sk.closed || sk.tcp || sk.fake != nil || sk.loose || (w.addrOff && (sk.laddr == dmLocal[2])) {
+			break
+		}
+		dst := sk.laddr
+		if dst == "" {
+			dst = dmLocal[1]
+		}
+		link := w.S.Link
+		if nicOf(dst) == 2 || sk.nic == 2 {
+			break
+		}
+		src, sport := dmRAddr[0], dmRPort[0]
+		if sk.raddr != "" {
+			src, sport = sk.raddr, sk.rport
+		}
+		sk.ep.SetSockOpt(tcpip.TimestampOption(1)) // the clock is read on the delivery path: a schedule point
+		w.npkt++
+		w.ipid++
+		seg := codec.EncodeUDP([]byte(src), []byte(dst), sport, sk.lport, dmPayload(w.seed, w.npkt))
+		w.InjectNoWait(link, ipv4.ProtocolNumber, codec.IPv4([]byte(src), []byte(dst), codec.ProtoUDP, w.ipid, 64, false, false, 0, seg), 0)
+		ep := sk.ep
+		sk.closed = true
+		if s.B%2 == 0 {
+			// the closer lines up behind the delivery: it gets its turn when the delivery yields
+			go func() {
+				runtime.Gosched()
+				ep.Close()
+			}()
+		} else {
+			go ep.Close()
+		}
+		w.Settle()
+		w.Probes["close_racing_with_delivery"]++
+		if v, _, err := ep.Read(nil); err == nil {
+			w.demuxFail("delivered-after-close", "a datagram (%d bytes) is readable on a UDP socket whose Close has returned: it was queued after the socket had been unregistered and drained", len(v))
+		}
+		w.Take()
 	case "udp":
 		w.inject(false, s.A, s.B, s.C, int(s.D))
 	case "tcp":
@@ -585,11 +694,18 @@ func (w *dmWorld) apply(s Step) {
 
 func (w *dmWorld) next() Step {
 	r := w.Rng
-	weights := []int{6, 1, 10, 0, 1, 1}
+	weights := []int{6, 1, 10, 0, 1, 1, 1, 1}
 	if w.cfg.Binds {
-		weights = []int{8, 5, 3, 0, 1, 4}
+		weights = []int{8, 5, 3, 0, 1, 4, 1, 1}
 	}
 	switch r.Pick(weights...) {
+	case 6:
+		return Step{Op: "addr"}
+	case 7:
+		if len(w.socks) > 0 {
+			return Step{Op: "raceclose", A: r.Intn(len(w.socks)), B: r.Intn(2)}
+		}
+		return Step{Op: "addr"}
 	case 0:
 		kind := r.Pick(4, 3, 3, 3, 2)
 		mode := 0
